@@ -709,10 +709,21 @@ func (m *Module) EmitGenConvert(x Value, typ ValueType) (insts []wat.Inst) {
 			insts = append(insts, wat.NewInstConvert_i32_wrap_i64())
 
 		case xt.Equal(m.F32):
-			insts = append(insts, wat.NewInstConvert_i32_trunc_f32_s())
+			if typ.Equal(m.U32) {
+				// values from 2^31 up do not fit the signed 32-bit truncation
+				insts = append(insts, wat.NewInstConvert_i64_trunc_f32_s())
+				insts = append(insts, wat.NewInstConvert_i32_wrap_i64())
+			} else {
+				insts = append(insts, wat.NewInstConvert_i32_trunc_f32_s())
+			}
 
 		case xt.Equal(m.F64):
-			insts = append(insts, wat.NewInstConvert_i32_trunc_f64_s())
+			if typ.Equal(m.U32) {
+				insts = append(insts, wat.NewInstConvert_i64_trunc_f64_s())
+				insts = append(insts, wat.NewInstConvert_i32_wrap_i64())
+			} else {
+				insts = append(insts, wat.NewInstConvert_i32_trunc_f64_s())
+			}
 		}
 		return
 
@@ -748,11 +759,25 @@ func (m *Module) EmitGenConvert(x Value, typ ValueType) (insts []wat.Inst) {
 		case xt.Equal(m.I64), xt.Equal(m.U64):
 			break
 
-		case xt.Equal(m.F32):
-			insts = append(insts, wat.NewInstConvert_i64_trunc_f32_s())
-
-		case xt.Equal(m.F64):
-			insts = append(insts, wat.NewInstConvert_i64_trunc_f64_s())
+		case xt.Equal(m.F32), xt.Equal(m.F64):
+			// values from 2^63 up do not fit the signed truncation: convert x - 2^63 and set the top bit
+			var trunc wat.Inst = wat.NewInstConvert_i64_trunc_f32_s()
+			if xt.Equal(m.F64) {
+				trunc = wat.NewInstConvert_i64_trunc_f64_s()
+			}
+			ft := toWatType(xt)
+			insts = append(insts, wat.NewInstConst(ft, "9223372036854775808"))
+			insts = append(insts, wat.NewInstLt(ft))
+			conv := wat.NewInstIf(nil, nil, []wat.ValueType{wat.I64{}})
+			conv.True = append(conv.True, x.EmitPush()...)
+			conv.True = append(conv.True, trunc)
+			conv.False = append(conv.False, x.EmitPush()...)
+			conv.False = append(conv.False, wat.NewInstConst(ft, "9223372036854775808"))
+			conv.False = append(conv.False, wat.NewInstSub(ft))
+			conv.False = append(conv.False, trunc)
+			conv.False = append(conv.False, wat.NewInstConst(wat.I64{}, "-9223372036854775808"))
+			conv.False = append(conv.False, wat.NewInstXor(wat.I64{}))
+			insts = append(insts, conv)
 		}
 		return
 
